@@ -51,10 +51,10 @@ def run(ctx):
                     ctx.prop_fail('streaming decoder on a stream closed at the cut: %s instead of the end-of-stream error' % r['closed'], m)
                 if with_spec and not search_only:
                     fuel = 2 * len(data) + 40
-                    exprs.append('match decode_with %s %s (Some %s) %s with Err e => if err_eqb e %s then 0 else 1 | Ok _ => 1 end' % (
+                    exprs.append('match decode_with %s %s (Some %s) %s with Err EUnmodelled => 2 | Err e => if err_eqb e %s then 0 else 1 | Ok _ => 1 end' % (
                         cdc, cnat(fuel), c.cty, cbytes(data[:k]), r['bytes'] if r['bytes'] != 'value' else 'EUnmodelled'))
                     meta.append(m)
-                    exprs.append('match resume (dec_item %s %s (Some %s)) (mkStream %s 0 false 0) with inl _ => 0 | inr _ => 1 end' % (
+                    exprs.append('match resume (dec_item %s %s (Some %s)) (mkStream %s 0 false 0) with inl _ => 0 | inr (Err EUnmodelled, _) => 2 | inr _ => 1 end' % (
                         cdc, cnat(fuel), c.cty, cbytes(data[:k])))
                     meta.append(dict(m, presentation='open'))
     if meta: ctx.sample(meta[0]); ctx.sample(meta[-1])
